@@ -29,9 +29,9 @@ pub fn params(prop: &str, tier: Tier) -> Params {
         ("C16", Tier::Quick) => (2400, 32 * 1024, 1, 12),
         ("C16", Tier::Thorough) => (60_000, 256 * 1024, 1, 10),
         ("C17", Tier::Quick) => (6000, 32 * 1024, 1, 0),
-        ("C17", Tier::Thorough) => (150_000, 256 * 1024, 1, 0),
+        ("C17", Tier::Thorough) => (100_000, 256 * 1024, 1, 0),
         ("C18", Tier::Quick) => (6000, 32 * 1024, 8, 0),
-        ("C18", Tier::Thorough) => (150_000, 256 * 1024, 12, 0),
+        ("C18", Tier::Thorough) => (100_000, 256 * 1024, 12, 0),
         _ => (100, 1024, 1, 0),
     };
     Params {
